@@ -594,26 +594,48 @@ impl Check for C15 {
             Tier::Thorough => 60_000,
         }
     }
-    fn generate(&self, run_seed: u64, _index: u64, tier: Tier) -> Case {
+    fn generate(&self, run_seed: u64, index: u64, tier: Tier) -> Case {
+        // one run in four is a small concurrent program on ring T (they are cheap next to the
+        // long sequential workloads)
+        if index % 4 == 3 {
+            let t = crate::checks::tchecks::TCheck { kind: crate::checks::tchecks::TKind::C15 };
+            return t.generate(run_seed, index, tier);
+        }
         let sc = gen_c15(run_seed, tier);
         Case {
             kind: "H".into(),
             data: json!({"scenario": sc.to_json()}),
         }
     }
-    fn run_fast(&self, run_seed: u64, _index: u64, tier: Tier) -> Option<Outcome> {
+    fn run_fast(&self, run_seed: u64, index: u64, tier: Tier) -> Option<Outcome> {
+        if index % 4 == 3 {
+            return None;
+        }
         let sc = gen_c15(run_seed, tier);
         Some(exec_c15(&sc, false))
     }
     fn execute(&self, case: &Case) -> Outcome {
+        if case.kind == "T" {
+            let t = crate::checks::tchecks::TCheck { kind: crate::checks::tchecks::TKind::C15 };
+            let mut out = t.execute(case);
+            out.count("ring_T_runs", 1);
+            return out;
+        }
         let sc = scenario_of(case);
         exec_c15(&sc, case.data.get("log").is_some())
+    }
+    fn shrink(&self, case: &Case) -> Vec<Case> {
+        if case.kind == "T" {
+            let t = crate::checks::tchecks::TCheck { kind: crate::checks::tchecks::TKind::C15 };
+            return t.shrink(case);
+        }
+        crate::minimise::shrink_scenario_case(case)
     }
     fn rule(&self) -> String {
         "seeded long workloads (30..10000 commands, every command kind) over a live set of 2-5 small items under random eviction with a limit 20-1000x the largest possible live set (one run in three: a limit that the accounted usage of this very workload reaches exactly, found by a dry run); direct oracle: a record of a key the command does not address vanishes during a store (= eviction) only if accounted usage + record being written exceeds the limit; behavioural oracle: no key the reference model says is live ever misses; accounting oracle (hook H4 accessor): after every command accounted usage minus the sum of Record::len() must not change, and every change is attributed to (command kind, outcome, cause). non-trivial = a command's outcome depended on earlier state; distinct = distinct event-log fingerprints".into()
     }
     fn assumptions(&self) -> Vec<String> {
-        vec!["the cfg(memcrs_verif) accessor RandomPolicy::verif_memory_usage reads the counter without changing behaviour".into(), "ring H (sequential); the concurrent side of the accounting is not explored by this check".into()]
+        vec!["the cfg(memcrs_verif) accessor RandomPolicy::verif_memory_usage reads the counter without changing behaviour".into(), "ring H (sequential) for the attribution of drift; ring T (1 run in 4): 2-3 clients x 1-3 commands (stores of fresh keys, deletes of existing keys, gets) under seeded schedules with limits 80..400 bytes - none of the recorded drift mechanisms can occur there and the recorded races only lower the counter, so accounted usage > stored bytes afterwards is a violation".into()]
     }
     fn components(&self) -> Value {
         json!({
@@ -622,6 +644,9 @@ impl Check for C15 {
         })
     }
     fn sample(&self, case: &Case) -> Value {
+        if case.kind == "T" {
+            return case.data["program"].clone();
+        }
         compact_sample(case)
     }
 }
